@@ -49,6 +49,10 @@ pub enum Focus {
     Cycles,
     /// C12: hash keys (H4)
     Determinism,
+    /// repository fixtures (real-world schema shapes) inside histories
+    Fixtures,
+    /// the two large fixtures (github.json, vega.json), hash keys only
+    FixturesBig,
 }
 
 impl Swarm {
@@ -98,6 +102,11 @@ impl Swarm {
             Focus::Determinism => {
                 s.relation = Some("H4");
                 s.readd = false;
+            }
+            Focus::Fixtures | Focus::FixturesBig => {
+                s.n_components = rng.range(0, 2);
+                s.relation = *rng.pick(&[None, Some("H3"), Some("H4"), Some("H4")]);
+                s.defaults = *rng.pick(&[0u8, 1]);
             }
         }
         if s.relation.is_some() {
@@ -994,6 +1003,11 @@ pub fn make_variant(rng: &mut Rng, relation: &str, base: &[Op]) -> Vec<Op> {
 
 /// Expand a seed into a full run description.
 pub fn generate(seed: u64, focus: Focus, faults: bool) -> RunDesc {
+    match focus {
+        Focus::Fixtures => return generate_fixture_run(seed, false, faults),
+        Focus::FixturesBig => return generate_fixture_run(seed, true, faults),
+        _ => {}
+    }
     let mut rng = Rng::new(seed);
     let mut sw_rng = rng.fork();
     let mut set_rng = rng.fork();
@@ -1127,6 +1141,7 @@ pub fn generate(seed: u64, focus: Focus, faults: bool) -> RunDesc {
         settings,
         ops,
         variant,
+        model_off: false,
     }
 }
 
@@ -1145,4 +1160,138 @@ pub fn gen_document(seed: u64, with_defaults: bool) -> (Value, Vec<String>) {
     let doc = root_doc(&mut rng, &refs, titled);
     let names = comps.iter().flat_map(|c| c.defs.iter().map(|d| d.0.clone())).collect();
     (doc, names)
+}
+
+
+/// Repository fixture documents: (name, parsed JSON).
+pub fn fixture_docs(big: bool) -> Vec<(String, Value)> {
+    let mut paths: Vec<std::path::PathBuf> = Vec::new();
+    if big {
+        paths.push("/repo/typify-impl/tests/github.json".into());
+        paths.push("/repo/typify-impl/tests/vega.json".into());
+    } else {
+        paths.push("/repo/example.json".into());
+        if let Ok(rd) = std::fs::read_dir("/repo/typify/tests/schemas") {
+            let mut ps: Vec<std::path::PathBuf> = rd
+                .filter_map(|e| e.ok())
+                .map(|e| e.path())
+                .filter(|p| p.extension().map(|e| e == "json").unwrap_or(false))
+                .collect();
+            ps.sort();
+            paths.extend(ps);
+        }
+    }
+    let mut v = Vec::new();
+    for p in paths {
+        if let Ok(text) = std::fs::read_to_string(&p) {
+            if let Ok(doc) = serde_json::from_str::<Value>(&text) {
+                v.push((p.file_name().unwrap().to_string_lossy().to_string(), doc));
+            }
+        }
+    }
+    v
+}
+
+/// A history around one repository fixture: the document is delivered whole
+/// (add_root_schema) or as its definitions (add_ref_types), between generated
+/// components, with $ref look-ups, a re-delivery and renders. The model makes
+/// no acceptance predictions about fixture schemas (`model_off`).
+pub fn generate_fixture_run(seed: u64, big: bool, faults: bool) -> RunDesc {
+    let mut rng = Rng::new(seed);
+    let mut sw_rng = rng.fork();
+    let hash_key = rng.next_u64();
+    let decoy = if rng.chance(1, 4) { rng.range(1, 5) as u32 } else { 0 };
+    let mut comp_rng = rng.fork();
+    let mut var_rng = rng.fork();
+    let mut sw = Swarm::draw(&mut sw_rng, if big { Focus::FixturesBig } else { Focus::Fixtures }, faults);
+    if big {
+        sw.n_components = 0;
+        sw.relation = Some("H4");
+    }
+    let docs = fixture_docs(big);
+    let comps: Vec<Component> = (0..sw.n_components).map(|i| gen_component(&mut comp_rng, &sw, i)).collect();
+    let mut settings = SettingsDesc::default();
+    settings.struct_builder = rng.chance(1, 2);
+    if rng.chance(1, 3) {
+        settings.map_type = Some("::std::collections::BTreeMap".into());
+    }
+    let mut ops: Vec<Op> = Vec::new();
+    if docs.is_empty() {
+        return RunDesc { seed, hash_key, decoy, faults: "off".into(), settings, ops, variant: None, model_off: true };
+    }
+    let (_name, doc) = rng.pick(&docs).clone();
+    let defs_key = if doc.get("definitions").is_some() { "definitions" } else { "$defs" };
+    let def_names: Vec<String> = doc
+        .get(defs_key)
+        .and_then(|d| d.as_object())
+        .map(|d| d.keys().cloned().collect())
+        .unwrap_or_default();
+    let mut pool: Vec<&Component> = comps.iter().collect();
+    if !pool.is_empty() && rng.chance(1, 2) {
+        let c = pool.remove(0);
+        ops.push(Op::AddRefTypes { defs: c.defs.clone(), poison: None });
+    }
+    // the fixture, by one of the two routes
+    let titled_root = doc.get("title").is_some();
+    let fixture_op_index = ops.len();
+    if titled_root || def_names.is_empty() || rng.chance(1, 2) {
+        ops.push(Op::AddRootSchema { doc: doc.clone(), poison: None });
+    } else {
+        let defs: Vec<(String, Value)> = doc[defs_key].as_object().unwrap().iter().map(|(k, v)| (k.clone(), v.clone())).collect();
+        ops.push(Op::AddRefTypes { defs, poison: None });
+    }
+    if !big {
+        ops.push(Op::Inspect);
+        if !def_names.is_empty() && rng.chance(1, 2) {
+            ops.push(Op::AddType { schema: r(rng.pick(&def_names).as_str()), hint: None, poison: None });
+        }
+        if rng.chance(1, 3) && sw.relation.is_none() {
+            ops.push(Op::ReAdd { of: fixture_op_index });
+        }
+        for c in pool {
+            ops.push(Op::AddRefTypes { defs: c.defs.clone(), poison: None });
+        }
+        ops.push(Op::Inspect);
+    }
+    ops.push(Op::Render);
+    let variant = sw.relation.map(|rel| {
+        let vops = if rel == "H3" && !titled_root {
+            // the other route for the fixture; everything else unchanged
+            ops.iter()
+                .enumerate()
+                .map(|(i, op)| {
+                    if i != fixture_op_index {
+                        return op.clone();
+                    }
+                    match op {
+                        Op::AddRootSchema { doc, .. } => Op::AddRefTypes {
+                            defs: doc
+                                .get(defs_key)
+                                .and_then(|d| d.as_object())
+                                .map(|d| d.iter().map(|(k, v)| (k.clone(), v.clone())).collect())
+                                .unwrap_or_default(),
+                            poison: None,
+                        },
+                        Op::AddRefTypes { defs, .. } => {
+                            let mut m = Map::new();
+                            for (n, s) in defs {
+                                m.insert(n.clone(), s.clone());
+                            }
+                            Op::AddRootSchema { doc: json!({"definitions": m}), poison: None }
+                        }
+                        other => other.clone(),
+                    }
+                })
+                .collect()
+        } else {
+            ops.clone()
+        };
+        Variant {
+            relation: if rel == "H3" && titled_root { "H4".into() } else { rel.to_string() },
+            hash_key: var_rng.next_u64(),
+            decoy: if var_rng.chance(1, 3) { var_rng.range(1, 4) as u32 } else { 0 },
+            ops: vops,
+        }
+    });
+    RunDesc { seed, hash_key, decoy, faults: "off".into(), settings, ops, variant, model_off: true }
 }
